@@ -73,6 +73,12 @@ pub fn run(ctx: &mut Ctx) {
             one(ctx, &cl, &p, case % 2 == 0);
         });
     }
+    // recorded witness of a residual-hash collision that made the component cache return the
+    // diagram of CNF|x=T while compiling CNF|x=F (F12): pointwise check on the assignment where
+    // the two differ, both node stores (2 308 variables: evaluated along one path, no truth table)
+    for case in ctx.cases("hash_witness", 2, false) {
+        ctx.run_case("hash_witness", case, |ctx, _rng| hash_witness(ctx, case % 2 == 1));
+    }
     // one builder, several CNFs over the same variables (relatives of each other: shared
     // clauses, so that residual formulas of different compilations look alike), the first one
     // compiled once more at the end
@@ -244,6 +250,67 @@ fn many(ctx: &mut Ctx, cls: &[Clauses], perm: &[usize], semantic: bool) {
         go!(SemanticDecisionNNFBuilder::<{ primes::U64_LARGEST }>::new(order))
     } else {
         go!(StandardDecisionNNFBuilder::new(order))
+    }
+}
+
+fn hash_witness(ctx: &mut Ctx, semantic: bool) {
+    use crate::witness::*;
+    // the compiler recurses once per variable: give it a large stack
+    let verdict = std::thread::Builder::new()
+        .stack_size(768 << 20)
+        .spawn(move || {
+            let (raw, qr) = witness2();
+            let cnf = rsdd::repr::Cnf::new(
+                &raw.iter().map(|c| c.iter().map(|(v, p)| rsdd::repr::Literal::new(VarLabel::new(*v as u64), *p)).collect::<Vec<_>>()).collect::<Vec<_>>(),
+            );
+            let n = cnf.num_vars();
+            // x = F, both other literals of one POS clause false, everything else true: that
+            // clause is falsified, so the CNF is false on this assignment
+            let c = POS[0];
+            let mut a = vec![true; n];
+            a[0] = false;
+            a[qr[c].0] = false;
+            a[qr[c].1] = false;
+            let expected = raw.iter().all(|cl| cl.iter().any(|(v, p)| a[*v] == *p));
+            fn eval(mut p: BddPtr, a: &[bool]) -> bool {
+                let mut neg = false;
+                loop {
+                    match p {
+                        BddPtr::PtrTrue => return !neg,
+                        BddPtr::PtrFalse => return neg,
+                        BddPtr::Reg(nd) => p = if a[nd.var.value_usize()] { nd.high } else { nd.low },
+                        BddPtr::Compl(nd) => {
+                            neg = !neg;
+                            p = if a[nd.var.value_usize()] { nd.high } else { nd.low };
+                        }
+                    }
+                }
+            }
+            let got = if semantic {
+                let b = SemanticDecisionNNFBuilder::<{ primes::U64_LARGEST }>::new(VarOrder::linear_order(n));
+                let r = b.compile_cnf_topdown(&cnf);
+                eval(r, &a)
+            } else {
+                let b = StandardDecisionNNFBuilder::new(VarOrder::linear_order(n));
+                let r = b.compile_cnf_topdown(&cnf);
+                eval(r, &a)
+            };
+            (got, expected, n, raw.len())
+        })
+        .expect("HARNESS: cannot spawn the witness thread")
+        .join();
+    let (got, expected, n, m) = match verdict {
+        Ok(v) => v,
+        Err(_) => {
+            ctx.violation("panic", "panic while compiling the recorded witness CNF", json!({"store": if semantic { "semantic64" } else { "standard" }}));
+            return;
+        }
+    };
+    ctx.count("witness_compilations", 1);
+    ctx.case_eval(Some(crate::rng::mix(0xF12 ^ semantic as u64)));
+    if got != expected {
+        ctx.violation("topdown.function.witness", "top-down result differs from the CNF on an assignment (recorded residual-hash collision witness)",
+            json!({"store": if semantic { "semantic64" } else { "standard" }, "variables": n, "clauses": m, "diagram_value": got, "cnf_value": expected}));
     }
 }
 
